@@ -87,6 +87,53 @@ def _with_lemmas(ob):
     return ob
 
 
+_LEAN_RESULT = {}  # per-process cache of the Lean cross-check of the A4 lemma schemas
+
+
+def _uses_a4(mod, all_obs=()):
+    """The property relies on the A4 lemma schemas: some obligation received lemma instances, or the module says so
+    (TRUSTED / ASSUMPTIONS mention A4) or imports pyvc.reals."""
+    if any(o.get("lemma_instances") for _, o in all_obs):
+        return True
+    texts = list(getattr(mod, "TRUSTED", [])) + list(getattr(mod, "ASSUMPTIONS", []))
+    if any("A4" in str(t) for t in texts):
+        return True
+    try:
+        from . import reals as _reals
+
+        return any(v is _reals for v in vars(mod).values())
+    except Exception:
+        return False
+
+
+def lean_cross_check():
+    """Thorough tier only: lemmas/check_lean.sh compiles lemmas/real_analysis.lean (every A4 schema proved from Mathlib,
+    no sorry / extra axioms, Python schema text quoted in the Lean file).  Run once per process.
+    Returns dict(theorems, status, seconds[, detail])."""
+    if "r" not in _LEAN_RESULT:
+        import re
+        import subprocess
+
+        t0 = time.time()
+        script = os.path.join(ROOT, "lemmas", "check_lean.sh")
+        res = dict(theorems=0, status="fail", seconds=0.0)
+        try:
+            p = subprocess.run(["bash", script], capture_output=True, text=True, timeout=int(os.environ.get("LEAN_TIMEOUT", "1500")) + 60)
+            out = (p.stdout or "") + (p.stderr or "")
+            m = re.search(r"LEAN-CROSS-CHECK status=(\w+) theorems=(\d+)", out)
+            if m:
+                res["theorems"] = int(m.group(2))
+            if p.returncode == 0 and m and m.group(1) == "ok":
+                res["status"] = "ok"
+            else:
+                res["detail"] = "\n".join(out.strip().splitlines()[-12:])[-1500:] or f"exit code {p.returncode}"
+        except Exception as e:  # missing bash / lean, timeout, ...
+            res["detail"] = f"{type(e).__name__}: {e}"
+        res["seconds"] = round(time.time() - t0, 1)
+        _LEAN_RESULT["r"] = res
+    return _LEAN_RESULT["r"]
+
+
 def _model_eval(m):
     """ev(prefix, default=None, kind=int): value of the first model constant whose name is `prefix` or `prefix!<n>`."""
     table = {}
@@ -174,6 +221,8 @@ def _verify_one(args):
                 r = discharge(ob, th)
             rec = dict(name=f"{con.frame_name}::{ob.name}", kind=ob.kind, status=r["status"], backend=r["backend"],
                        time_s=round(r["time_s"], 4), where=ob.where)
+            if ob.meta.get("lemma_instances"):
+                rec["lemma_instances"] = ob.meta["lemma_instances"]  # number of A4 schema instances added (-> lean_cross_check)
             if r["status"] != "proved":
                 rec["model"] = r.get("model")
                 rec["reason"] = r.get("reason")
@@ -232,6 +281,8 @@ def _lemma_one(args):
                 r = discharge(ob, th)
             rec = dict(name=f"lemma::{lem.name}::{lab}", kind="lemma", status=r["status"], backend=r["backend"],
                        time_s=round(r["time_s"], 4), sample=str(goal)[:300])
+            if ob.meta.get("lemma_instances"):
+                rec["lemma_instances"] = ob.meta["lemma_instances"]
             if r["status"] != "proved":
                 rec["model"] = r.get("model")
                 rec["reason"] = r.get("reason")
@@ -252,6 +303,19 @@ def _bounded_one(args):
         return dict(res=res, wall_s=round(time.time() - tb, 2))
     except Exception as e:
         return dict(error=f"{type(e).__name__}: {e}\n{traceback.format_exc()[-1200:]}", wall_s=round(time.time() - tb, 2))
+
+
+_SELFTEST = {}
+
+
+def _selftest_one(args):
+    """Engine self-check against CPython (DESIGN §3, pyvc/selftest.py): thorough tier, once per process."""
+    tier, seed = args
+    if (tier, seed) not in _SELFTEST:
+        from .selftest import run_cached
+
+        _SELFTEST[(tier, seed)] = run_cached(tier, seed)
+    return _SELFTEST[(tier, seed)]
 
 
 def load_known(pid):
@@ -294,19 +358,26 @@ def run_property(pid, tier="quick", seed=0, update_baseline=False, jobs=None):
     tasks = [(i, tier) for i in range(len(contracts))]
     ltasks = [(i, tier) for i in range(len(lemmas))]
     btasks = [(i, tier, seed) for i in range(len(bounded))]
+    # engine self-check against CPython: thorough tier only, once per process (VERIF_SELFTEST=0 skips, =1 forces it in quick)
+    want_selftest = os.environ.get("VERIF_SELFTEST", "1" if tier == "thorough" else "0") == "1"
     if jobs > 1 and (len(tasks) + len(ltasks) + len(btasks)) > 1:
         ctxmp = mp.get_context("fork")
         with ctxmp.Pool(min(jobs, max(1, len(tasks) + len(ltasks) + len(btasks)))) as pool:
             ab = pool.map_async(_bounded_one, btasks, chunksize=1)  # bounded stand-ins run alongside the proofs
             ar = pool.map_async(_verify_one, tasks, chunksize=1)
             al = pool.map_async(_lemma_one, ltasks, chunksize=1)
+            ast_ = pool.apply_async(_selftest_one, ((tier, int(seed)),)) if want_selftest and (tier, int(seed)) not in _SELFTEST else None
             results = ar.get()
             lemma_results = al.get()
             bounded_results = ab.get()
+            if ast_ is not None:
+                _SELFTEST[(tier, int(seed))] = ast_.get()
+            selftest = _SELFTEST.get((tier, int(seed))) if want_selftest else None
     else:
         results = [_verify_one(t) for t in tasks]
         lemma_results = [_lemma_one(t) for t in ltasks]
         bounded_results = [_bounded_one(t) for t in btasks]
+        selftest = _selftest_one((tier, int(seed))) if want_selftest else None
 
     lines = []
     violations = []
@@ -331,6 +402,19 @@ def run_property(pid, tier="quick", seed=0, update_baseline=False, jobs=None):
         if r["error"]:
             faults.append(f"lemma {r['lemma']}: {r['error']}")
         all_obs.extend((r, o) for o in r["obligations"])
+    # A4 lemma schemas re-proved from Mathlib (lemmas/real_analysis.lean): thorough tier only, once per process, only for
+    # properties that use the schemas; a failure is a checker fault (exit 3), never a VIOLATION.  VERIF_LEAN=0 skips.
+    lean = None
+    if tier == "thorough" and os.environ.get("VERIF_LEAN", "1") == "1" and _uses_a4(mod, all_obs):
+        lean = lean_cross_check()
+        if lean["status"] != "ok":
+            faults.append(f"lean cross-check of the A4 lemma schemas failed (lemmas/check_lean.sh): {str(lean.get('detail', ''))[-600:]}")
+    selftest_failed = bool(selftest and selftest.get("disagreements"))
+    if selftest_failed:
+        # the engine's encoding of Python / numpy / torch semantics disagrees with CPython: a checker fault, never a VIOLATION
+        d0 = (selftest.get("details") or [{}])[0]
+        faults.append(f"engine self-test: {selftest['disagreements']} disagreement(s) with CPython, first: program={d0.get('program')} "
+                      f"kind={d0.get('kind')} input={d0.get('input')} cpython={d0.get('cpython')} engine={str(d0.get('engine'))[:200]} (bin/selftest -v)")
 
     replay_dir = os.path.join(ROOT, "replays", pid)
     os.makedirs(replay_dir, exist_ok=True)
@@ -417,12 +501,16 @@ def run_property(pid, tier="quick", seed=0, update_baseline=False, jobs=None):
                                       for r in results],
             lemmas=[dict(lemma=r["lemma"], obligations=len(r["obligations"]), error=r["error"]) for r in lemma_results],
             by_backend=by_backend, solver_time_s=round(solver_time, 3),
+            slowest_obligations=[dict(name=o["name"], time_s=o["time_s"], backend=o["backend"])
+                                 for _, o in sorted(all_obs, key=lambda ro: -ro[1]["time_s"])[:8]],
             not_discharged=[dict(name=o["name"], status=o["status"]) for _, o in all_obs if o["status"] != "proved"],
             known_findings_hit=known_hit,
             bounded_checks=bounded_out,
             baseline_missing_obligations=missing,
             dropped_by_extraction=["type annotations", "docstrings", "typing.cast(T,x) -> x", "output-only calls (print, warn, tqdm, gc.collect, empty_cache) -> no-op", "with torch.no_grad(): -> body"],
             undecided=undecided, checker_faults=faults,
+            **({"engine_selftest": selftest} if selftest is not None else {}),
+            **({"lean_cross_check": {k: lean[k] for k in ("theorems", "status", "seconds")}} if lean is not None else {}),
         ),
         assumptions=list(getattr(mod, "ASSUMPTIONS", [])),
         wall_s=round(wall, 2), violations=len(violations),
@@ -441,7 +529,17 @@ def run_property(pid, tier="quick", seed=0, update_baseline=False, jobs=None):
         json.dump(allb, open(path, "w"), indent=1, sort_keys=True)
 
     for ln in lines:
-        print(ln)
+        # with a failed engine self-test no verdict of the engine is trusted: the run is a checker fault (exit 3), not a VIOLATION
+        print(("UNTRUSTED(engine self-test failed) " + ln) if selftest_failed and ln.startswith("VIOLATION") else ln)
+    if lean is not None:
+        print(f"[{pid}] lean_cross_check theorems={lean['theorems']} status={lean['status']} seconds={lean['seconds']}")
+    if selftest is not None:
+        print(f"[{pid}] engine_selftest programs={selftest.get('programs')} comparisons={selftest.get('comparisons')} "
+              f"disagreements={selftest.get('disagreements')} seconds={selftest.get('seconds')}")
+    if selftest_failed:
+        for f in faults:
+            print(f"CHECKER-FAULT property={pid} {f}")
+        return 3
     print(f"[{pid}] tier={tier} functions={len(results)} obligations={n_obl} discharged={n_proved} "
           f"bounded={len(bounded_out)} violations={len(violations)} known={len(known_hit)} undecided={len(undecided)} faults={len(faults)} wall={wall:.1f}s")
     if violations:
